@@ -52,6 +52,11 @@ func New(prog *ssa.Program, sizes types.Sizes, stubs map[string]*ssa.Function, r
 	}
 	e := &Engine{i: i}
 	initReflectModel(i)
+	if osp := prog.ImportedPackage("os"); osp != nil {
+		if g := osp.Var("Args"); g != nil {
+			*i.globals[g] = []value{"symgo"}
+		}
+	}
 	// error-typed globals of packages known only from export data (context.Canceled, io.EOF,
 	// os.ErrNotExist ...) get distinct sentinel values, since their initialisers are not run
 	errT := types.Universe.Lookup("error").Type()
